@@ -845,6 +845,9 @@ func (fr *Frame) execConvert(x *ssa.Convert, st *State) error {
 		k := c.regElem(bs)
 		c.sc.declFun("str_bytes", []Sort{SStr}, arraySort(c.sc.idxSort(), bs))
 		st.set(k, c.sc.define("elems", sto(c.get(st, k), r, mk(arraySort(c.sc.idxSort(), bs), "str_bytes", v))))
+		// round trip: string([]byte(v)) == v
+		c.sc.declFun("bytes_to_str", []Sort{arraySort(c.sc.idxSort(), bs), c.sc.idxSort(), c.sc.idxSort()}, SStr)
+		c.assumeG(eq(mk(SStr, "bytes_to_str", mk(arraySort(c.sc.idxSort(), bs), "str_bytes", v), c.sc.idxLit(0), n), v))
 		fr.setVal(x, s)
 	default:
 		c.unmodelled[fmt.Sprintf("conversion %s -> %s", under(from), under(to))] = true
